@@ -19,7 +19,8 @@ L = lambda lit: {"$lit": lit}           # noqa: E731
 INTS = [("-1", -1), ("0", 0), ("1", 1), ("2", 2), ("7", 7)]
 DOMAINS = {
     "func": [("ctlfuncs.work", P("ctlfuncs.work")), ("ctlfuncs.quick", P("ctlfuncs.quick")),
-             ("ctlfuncs.plain", P("ctlfuncs.plain")), ("nosuch.module.f", P("nosuch.module.f"))],
+             ("ctlfuncs.plain", P("ctlfuncs.plain")), ("nosuch.module.f", P("nosuch.module.f")),
+             ("ctlfuncs._quiet", P("ctlfuncs._quiet"))],
     "end_callback": [("ctlfuncs.cb", P("ctlfuncs.cb"))],
     "cancel_callback": [("ctlfuncs.cb", P("ctlfuncs.cb"))],
     "args": [("()", L("()")), ("(1,2)", L("(1,2)")), ("[3]", L("[3]"))],
